@@ -144,6 +144,8 @@ def canon_impl(r):
             reads.append((line[2:], cur))
             cur = []
     out = r["out"]
+    # a suspend inside a read switches bracketed paste off and, on resuming, on again (nothing in between): not a read boundary
+    out = out.replace(b"\x1b[?2004l\x1b[?2004h", b"")
     # per-read output: between ESC[?2004h and ESC[?2004l CR LF
     segs = []
     pos = 0
@@ -584,6 +586,13 @@ def c13_cases(tier, seed):
                                        else ["Left", "Home", "Backspace", "End", "Right"]))
             else:
                 keys.append(rng.choice(["C-_", "C-k", "C-u"]) if mode == "emacs" else "Backspace")
+        binds = []
+        if rng.random() < 0.2:
+            # a key bound to accept-or-insert-line that accepts only at the END of the input (nothing but blanks of any kind
+            # after the cursor) and inserts a line break elsewhere
+            binds = [("F6", "acceptend")]
+            keys += list(rng.choice(["a", "b)", "ok"])) + [rng.choice([" ", "\u3000", "\u00a0", "\u2003", " "])] * rng.randint(1, 2)
+            keys += ["Left"] * rng.randint(0, 3) + ["F6"]
         if mode == "vi" and rng.random() < 0.3:
             keys.append("Esc")
         keys.append("Enter")
@@ -591,7 +600,7 @@ def c13_cases(tier, seed):
         if reads == 2:
             keys += list(rand_text(rng, 0, 4, ["a", "(", ")", "!"])) + ["Enter"]
         hints = ["ok then"] if rng.random() < 0.2 else None
-        cases.append(Case(keys, mode=mode, validator=vk, reads=reads, hints=hints, initial=mk_initial(rng, 0.15, frag[:8]),
+        cases.append(Case(keys, mode=mode, validator=vk, reads=reads, hints=hints, initial=mk_initial(rng, 0.15, frag[:8]), binds=binds,
                           history=hist, timeout=0 if mode == "vi" else "none", prompt=rng.choice(["> ", ""]),
                           cols=rng.choice([80, 80, 20])))
     return cases
